@@ -11,10 +11,10 @@
                   event ARE, the provider is a function of the requested ID that answers with an
                   event of that ID, with nothing or with an error (`honest`); a provider that keeps
                   answering with other events makes the Go loop spin (last theorem).
-   The only fact used about `allowed` is that adding the same event twice in a row changes
-   nothing (stutter_invariant); the executable instance used in the correspondence check has it
-   (instance_allowed_is_stutter_invariant). Loop bounds of the model (fuel) are assumed large
-   enough for the events at hand, explicitly. *)
+   "Allowed by its auth events" is allowed_by: no two different cited events for one
+   (type, state_key) (auth rule 2.1, enforced since fix F84) and the rules proper.
+   Nothing is assumed about `allowed`. Loop bounds of the model (fuel) are explicit premises in the
+   general statements and computed from the input in the *_total statements. *)
 From Coq Require Import List NArith ZArith Bool Lia.
 From Verif Require Import Lib.Bytes Fed.Filters Fed.AuthChain Fed.Load Fed.Spec Fed.Instance
   Fed.GatherProofs Fed.StateProofs Fed.LoadProofs Fed.ChainProofs Fed.InstanceProofs.
@@ -24,7 +24,6 @@ Open Scope N_scope.
 Section C14.
   Variable sig_ok : event -> bool.
   Variable allowed : event -> list event -> bool.
-  Hypothesis allowed_stutter : stutter_invariant allowed.
   Variable prov : N -> presp.
   Hypothesis prov_honest : honest prov.
 
@@ -52,10 +51,10 @@ Section C14.
       = (CsrOk a s, tt) ->
     forall e, In e all ->
       (In e (a ++ s) <-> sig_ok e = true /\
-         allowed e (auth_events_of sig_ok (eff_prov hasprov prov) all e) = true).
+         allowed_by allowed e (auth_events_of sig_ok (eff_prov hasprov prov) all e) = true).
   Proof.
     intros fuel hasprov rauth rstate a s all Hnd Hf Hc e He.
-    destruct (csr_exact sig_ok allowed allowed_stutter prov prov_honest hasprov fuel rauth rstate a s Hf Hc)
+    destruct (csr_exact sig_ok allowed prov prov_honest hasprov fuel rauth rstate a s Hf Hc)
       as [-> ->].
     fold all. rewrite in_app_iff, !filter_In.
     rewrite (good_id_unique sig_ok allowed prov hasprov all e Hnd He).
@@ -71,7 +70,7 @@ Section C14.
        = (SjOk a s, tt)
      <-> check_state_response unit sig_ok allowed (pcall_of prov) fuel hasprov rauth rstate tt
            = (CsrOk a s, tt)
-         /\ allowed join (join_auth_events (eff_prov hasprov prov) a s join) = true
+         /\ allowed_by allowed join (join_auth_events (eff_prov hasprov prov) a s join) = true
          /\ allowed join s = true).
   Proof. intros. eapply sj_accept_iff; eauto. Qed.
 
@@ -89,12 +88,12 @@ Section C14.
     - intros Hok.
       destruct (chain_loop unit allowed (pcall_of prov) fuel gfuel [e] (mset [] (eid e) (Some e)) [] tt)
         as [r u] eqn:Hl. destruct u. simpl in Hok. subst r.
-      eapply (chain_sound allowed allowed_stutter prov prov_honest e gfuel Hg); eauto.
+      eapply (chain_sound allowed prov prov_honest e gfuel Hg); eauto.
       apply J_init.
     - intros Hall.
       destruct (J_init allowed prov e) as [HT _].
       assert (HS : forall c, In c [e] -> Reach prov e c) by (intros c [<-|[]]; constructor).
-      destruct (chain_complete allowed allowed_stutter prov prov_honest e gfuel Hg Hall fuel [e]
+      destruct (chain_complete allowed prov prov_honest e gfuel Hg Hall fuel [e]
                   (mset [] (eid e) (Some e)) [] HT HS) as [H|H]; auto.
       contradiction.
   Qed.
@@ -105,7 +104,7 @@ Section C14.
   Theorem check_state_response_total : forall hasprov rauth rstate,
     let all := untrusted_events rauth ++ untrusted_events rstate in
     let r := check_state_response unit sig_ok allowed (pcall_of prov) (csr_fuel all) hasprov rauth rstate tt in
-    r = (CsrNoStateKey, tt) \/ r = (CsrDuplicate, tt) \/
+    whole_failure unit r tt \/
     r = (CsrOk (filter (good_id sig_ok allowed (eff_prov hasprov prov) all) (untrusted_events rauth))
                (filter (good_id sig_ok allowed (eff_prov hasprov prov) all) (untrusted_events rstate)), tt).
   Proof.
@@ -139,7 +138,7 @@ Section C14.
     assert (Hnf : r <> ChainOutOfFuel).
     { unfold r, verify_event_auth_chain.
       destruct (J_init allowed prov e) as [HT _].
-      apply (chain_fuel_ok allowed allowed_stutter prov prov_honest e (gfuel_of univ) Hg univ Huniv
+      apply (chain_fuel_ok allowed prov prov_honest e (gfuel_of univ) Hg univ Huniv
                (fuel_of univ) [e] _ [] HT).
       - intros c [<-|[]]. constructor.
       - rewrite weight_nil. unfold fuel_of. simpl. lia. }
@@ -161,18 +160,26 @@ Theorem non_state_event_fails :
     whole_failure PS (check_state_response PS sig_ok allowed pcall fuel hasprov rauth rstate ps) ps.
 Proof. intros. eapply csr_nonstate_fails; eauto. Qed.
 
+(* fix F85: a response whose events do not all belong to one room fails as a whole *)
+Theorem mixed_rooms_fail :
+  forall PS sig_ok allowed pcall fuel hasprov rauth rstate (ps : PS),
+    one_room (untrusted_events rauth ++ untrusted_events rstate) = false ->
+    whole_failure PS (check_state_response PS sig_ok allowed pcall fuel hasprov rauth rstate ps) ps.
+Proof. intros. eapply csr_mixed_rooms_fails; eauto. Qed.
+
 (* ---- VerifyAuthRulesAtState, for any state provider ----
    accepted exactly when the state IDs can be fetched and either (validation permitted) all auth
-   event IDs are among them, or the state can be fetched, the auth events found in it are state
-   events and allow the event *)
+   event IDs are among them, or the state can be fetched, has at most one event per
+   (type, state_key), and the state events of THAT STATE allow the event (fix F83: not merely
+   those of them the event cites) *)
 Theorem auth_rules_at_state_accepts_iff :
-  forall PS allowed pcall sp_ids sp_state e allowValidation (ps : PS),
-    fst (verify_auth_rules_at_state PS allowed pcall sp_ids sp_state e allowValidation ps) = RasOk <->
+  forall PS allowed sp_ids sp_state e allowValidation (ps : PS),
+    fst (verify_auth_rules_at_state PS allowed sp_ids sp_state e allowValidation ps) = RasOk <->
     exists ps1 ids, sp_ids ps e = (ps1, Some ids) /\
       ((allowValidation = true /\ forallb (fun a => mem_N a ids) (auth_ids e) = true) \/
        exists ps2 m, sp_state ps1 e ids = (ps2, Some m) /\
-         forallb is_state (lookup_list m (auth_ids e)) = true /\
-         allowed e (lookup_list m (auth_ids e)) = true).
+         tuples_distinct (state_events_of m) = true /\
+         allowed e (state_events_of m) = true).
 Proof. intros. apply vras_accept_iff. Qed.
 
 (* ---- LoadAndVerify, for any providers ----
@@ -197,9 +204,9 @@ Proof. intros. eapply load_shape; eauto. Qed.
    that signature failures are passed on.) *)
 Theorem backfill_returns_unique_ids :
   forall PS sig_ok allowed pcall sp_ids sp_state topo servers_at backfill
-         fuel gfuel vk from_ids limit (ps : PS) evs lastErr ps',
+         fuel gfuel vk room from_ids limit (ps : PS) evs lastErr ps',
     request_backfill PS sig_ok allowed pcall sp_ids sp_state topo servers_at backfill
-                     fuel gfuel vk from_ids limit ps = (BfResult evs lastErr, ps') ->
+                     fuel gfuel vk room from_ids limit ps = (BfResult evs lastErr, ps') ->
     NoDup (map eid evs) /\ (from_ids = [] -> evs = [] /\ lastErr = false /\ ps' = ps).
 Proof. intros. eapply backfill_unique_ids; eauto. Qed.
 
@@ -207,9 +214,9 @@ Proof. intros. eapply backfill_unique_ids; eauto. Qed.
    "no error" or "signature error only" as the class of its first failing check *)
 Theorem backfill_returns_checked_events :
   forall PS sig_ok allowed pcall sp_ids sp_state topo servers_at backfill
-         fuel gfuel vk from_ids limit (ps : PS) evs lastErr ps',
+         fuel gfuel vk room from_ids limit (ps : PS) evs lastErr ps',
     request_backfill PS sig_ok allowed pcall sp_ids sp_state topo servers_at backfill
-                     fuel gfuel vk from_ids limit ps = (BfResult evs lastErr, ps') ->
+                     fuel gfuel vk room from_ids limit ps = (BfResult evs lastErr, ps') ->
     forall e, In e evs ->
       exists psa psb c, (c = LOk \/ c = LSig) /\
         class_spec PS sig_ok allowed pcall sp_ids sp_state fuel gfuel e psa c psb.
@@ -221,35 +228,49 @@ Proof. intros. eapply backfill_events_checked; eauto. Qed.
    good copy from a later one, and a later copy never replaces the one taken. *)
 Theorem backfill_takes_first_good_copy :
   forall PS sig_ok allowed pcall sp_ids sp_state topo servers_at backfill
-         fuel gfuel vk first rest limit (ps : PS) evs lastErr ps',
+         fuel gfuel vk room first rest limit (ps : PS) evs lastErr ps',
     request_backfill PS sig_ok allowed pcall sp_ids sp_state topo servers_at backfill
-                     fuel gfuel vk (first :: rest) limit ps = (BfResult evs lastErr, ps') ->
+                     fuel gfuel vk room (first :: rest) limit ps = (BfResult evs lastErr, ps') ->
     forall e, In e evs <->
-      first_good_copy
-        (concat (bf_answers PS sig_ok allowed pcall sp_ids sp_state topo backfill fuel gfuel vk limit
+      first_good_copy room
+        (concat (bf_answers PS sig_ok allowed pcall sp_ids sp_state topo backfill room fuel gfuel vk limit
                             (snd (servers_at ps first)) [] [] (fst (servers_at ps first)))) [] e.
 Proof. intros. eapply backfill_first_good_copy; eauto. Qed.
 
+(* fix F85: only events of the requested room are returned *)
+Theorem backfill_returns_only_room_events :
+  forall PS sig_ok allowed pcall sp_ids sp_state topo servers_at backfill
+         fuel gfuel vk room from_ids limit (ps : PS) evs lastErr ps',
+    request_backfill PS sig_ok allowed pcall sp_ids sp_state topo servers_at backfill
+                     fuel gfuel vk room from_ids limit ps = (BfResult evs lastErr, ps') ->
+    forall e, In e evs -> eroom e = room.
+Proof. intros. eapply backfill_only_room; eauto. Qed.
+
 Theorem backfill_nonpositive_limit_returns_nothing :
   forall PS sig_ok allowed pcall sp_ids sp_state topo servers_at backfill
-         fuel gfuel vk from_ids limit (ps : PS) evs lastErr ps',
+         fuel gfuel vk room from_ids limit (ps : PS) evs lastErr ps',
     (limit <= 0)%Z ->
     request_backfill PS sig_ok allowed pcall sp_ids sp_state topo servers_at backfill
-                     fuel gfuel vk from_ids limit ps = (BfResult evs lastErr, ps') ->
+                     fuel gfuel vk room from_ids limit ps = (BfResult evs lastErr, ps') ->
     evs = [] /\ lastErr = false.
 Proof. intros. eapply backfill_limit_nonpositive; eauto. Qed.
 
-(* ---- liveness note ----
-   a provider that answers the request for a missing auth event x with another state event,
-   every time, keeps checkAllowedByAuthEvents in its retry loop: no fuel suffices *)
-Theorem provider_that_keeps_changing_spins : forall d x rest fuel acc m,
-  eid d <> x -> is_state d = true -> mget m x = None ->
-  fst (fst (fst (gather unit (fun ps _ => (ps, PEvents [d])) fuel true (x :: rest) acc m tt))) = GOutOfFuel.
-Proof. intros. apply gather_spins; auto. Qed.
+(* ---- termination, for ANY provider (fix F82) ----
+   Whatever the event provider answers (other events than the one asked for, ever different
+   ones, stateful), the retry loop of checkAllowedByAuthEvents visits its label at most twice per
+   cited auth event, and CheckStateResponse never runs out of the fuel computed from the response. *)
+Theorem retry_loop_terminates_for_any_provider :
+  forall PS pcall aes fuel hasprov acc m (ps : PS),
+    (2 * length aes < fuel)%nat ->
+    fst (fst (fst (gather PS pcall fuel hasprov aes acc m ps))) <> GOutOfFuel.
+Proof. intros. now apply gather_total. Qed.
 
-(* the instance of `allowed` used by the correspondence check satisfies the hypothesis *)
-Theorem instance_allowed_is_stutter_invariant : forall s alt, stutter_invariant (allowed_inst s alt).
-Proof. exact allowed_inst_stutter. Qed.
+Theorem check_state_response_terminates_for_any_provider :
+  forall PS sig_ok allowed pcall fuel hasprov rauth rstate (ps : PS),
+    (forall e, In e (untrusted_events rauth ++ untrusted_events rstate) ->
+               (2 * length (auth_ids e) < fuel)%nat) ->
+    fst (check_state_response PS sig_ok allowed pcall fuel hasprov rauth rstate ps) <> CsrOutOfFuel.
+Proof. intros. now apply csr_total_any_provider. Qed.
 
 (* ---------- non-vacuity ---------- *)
 Definition ex_create : event := mkEvent 0 10 1 (Some 0) 7 [].
@@ -262,12 +283,6 @@ Definition ex_allowed (e : event) (l : list event) : bool :=
   forallb (fun x => existsb (fun a => eid a =? x) l) (auth_ids e).
 Definition ex_prov_none (_ : N) : presp := RNone.
 Definition ex_prov (x : N) : presp := if x =? 12 then REv ex_badsig else RNone.
-
-Lemma ex_allowed_stutter_concrete : stutter_invariant ex_allowed.
-Proof.
-  intros e l1 a l2. unfold ex_allowed. apply forallb_ext_c14. intros x.
-  rewrite !existsb_app. simpl. destruct (eid a =? x); simpl; auto.
-Qed.
 
 Lemma ex_prov_honest_concrete : honest ex_prov /\ honest ex_prov_none.
 Proof.
@@ -312,9 +327,10 @@ Print Assumptions backfill_returns_unique_ids.
 Print Assumptions backfill_returns_checked_events.
 Print Assumptions backfill_takes_first_good_copy.
 Print Assumptions backfill_nonpositive_limit_returns_nothing.
-Print Assumptions provider_that_keeps_changing_spins.
-Print Assumptions instance_allowed_is_stutter_invariant.
-Print Assumptions ex_allowed_stutter_concrete.
+Print Assumptions retry_loop_terminates_for_any_provider.
+Print Assumptions check_state_response_terminates_for_any_provider.
+Print Assumptions mixed_rooms_fail.
+Print Assumptions backfill_returns_only_room_events.
 Print Assumptions ex_prov_honest_concrete.
 Print Assumptions concrete_state_response.
 Print Assumptions concrete_auth_chain.
